@@ -1,10 +1,20 @@
 import Req.Driver.Proto
 import Req.H1.Response
+import Req.H1.Conn
+import Req.H1.ErrClass
 /-! Driver lanes of C04 (also used by C03).
 
 `c04parse <H|G> <B> <hex stream>` → canonical rendering of `parseResponse`.
 `c04chunk <B> <hex stream>` → the chunked reader alone.
 `c04mime <hex stream>` → the header block reader alone.
+`c04parseE`, `c04chunkE` → the same with the error class (`rej:<class>`, `end=err:<class>`,
+`err:<class>`): eof | status | header | te | cl | trailerkey | chunk | toolong.
+`c04conn <B> <reqs> <scripts>` → `transportRun`: a sequence of requests through the Transport over
+scripted connections.  `reqs`: comma-joined tokens `<G|H><c|k><e|n><F|P<k>>` (method HEAD or not,
+Request.Close or keep, Expect: 100-continue or not, body read fully / `k` bytes then Close).
+`scripts`: connections joined by `|`, each `<E|O>:<segments>` (peer closes after the last segment /
+keeps the connection open; segments comma-joined hex, segment j sent once request j was written).
+Answer: the per-request views joined by ` | `, then ` dials=<n>`.
 -/
 namespace Req.Driver.L.C04
 open Req.Proto Req.H1
@@ -69,10 +79,134 @@ def laneMime : List String → String
     | none => "bad-op"
   | _ => "bad-op"
 
+
+def renderClass : ErrClass → String
+  | .eof => "eof"
+  | .statusLine => "status"
+  | .header => "header"
+  | .transferEncoding => "te"
+  | .contentLength => "cl"
+  | .trailerKey => "trailerkey"
+  | .chunk => "chunk"
+  | .tooLong => "toolong"
+
+def renderOutcomeE : OutcomeE → String
+  | .reject c => "rej:" ++ renderClass c
+  | .resp m b e =>
+    "ok proto=" ++ encodeHex m.sl.proto ++ " status=" ++ encodeHex m.sl.status ++
+    " code=" ++ toString m.sl.code ++ " ver=" ++ toString m.sl.major ++ "." ++ toString m.sl.minor ++
+    " hdr=" ++ renderMap m.header ++ " cl=" ++ toString m.contentLength ++
+    " te=" ++ renderBool m.teChunked ++ " close=" ++ renderBool m.close ++
+    " framing=" ++ renderFraming m.framing ++
+    " body=" ++ encodeHex b.data ++ " end=" ++
+      (match e with
+       | none => if b.ok then "eof" else "err:?"
+       | some c => "err:" ++ renderClass c) ++
+    " trailer=" ++ renderMap b.trailer ++
+    " rest=" ++ (if b.ok then encodeHex b.rest else "?")
+
+def laneParseE : List String → String
+  | [meth, b, hex] =>
+    match b.toNat?, decodeHex hex with
+    | some B, some s =>
+      if meth == "H" then renderOutcomeE (parseResponseE true B s)
+      else if meth == "G" then renderOutcomeE (parseResponseE false B s)
+      else "bad-op"
+    | _, _ => "bad-op"
+  | _ => "bad-op"
+
+def laneChunkE : List String → String
+  | [b, hex] =>
+    match b.toNat?, decodeHex hex with
+    | some B, some s =>
+      match decodeChunkedE B s with
+      | (d, .error c) => "err:" ++ renderClass c ++ " body=" ++ encodeHex d
+      | (d, .ok r) => "eof body=" ++ encodeHex d ++ " rest=" ++ encodeHex r
+    | _, _ => "bad-op"
+  | _ => "bad-op"
+
+def parseReq (t : String) : Option ConnReq :=
+  match t.toList with
+  | m :: c :: e :: rest =>
+    let isHead? := if m == 'H' then some true else if m == 'G' then some false else none
+    let close? := if c == 'c' then some true else if c == 'k' then some false else none
+    let exp? := if e == 'e' then some true else if e == 'n' then some false else none
+    let cons? : Option Consume :=
+      match rest with
+      | ['F'] => some .full
+      | 'P' :: ds => (String.ofList ds).toNat?.map .part
+      | _ => none
+    match isHead?, close?, exp?, cons? with
+    | some h, some c, some e, some k => some ⟨h, c, e, k⟩
+    | _, _, _, _ => none
+  | _ => none
+
+def parseScript (t : String) : Option ConnScript :=
+  match t.splitOn ":" with
+  | [f, segs] =>
+    let eof? := if f == "E" then some true else if f == "O" then some false else none
+    match eof?, decodeList segs with
+    | some e, some l => some ⟨l, e⟩
+    | _, _ => none
+  | _ => none
+
+def renderEnd : BodyEnd → String
+  | .eof => "eof"
+  | .err => "err"
+  | .closed => "closed"
+  | .raw => "raw"
+
+def renderDelivery : Delivery → String
+  | .fail => "fail"
+  | .resp m seen e tr =>
+    "ok proto=" ++ encodeHex m.sl.proto ++ " status=" ++ encodeHex m.sl.status ++
+    " code=" ++ toString m.sl.code ++
+    " hdr=" ++ renderMap m.header ++ " cl=" ++ toString m.contentLength ++
+    " te=" ++ renderBool m.teChunked ++ " close=" ++ renderBool m.close ++
+    " body=" ++ encodeHex seen ++ " end=" ++ renderEnd e ++
+    " trailer=" ++ renderMap tr
+
+def laneConn : List String → String
+  | [b, reqs, scripts] =>
+    match b.toNat?, (reqs.splitOn ",").mapM parseReq, (scripts.splitOn "|").mapM parseScript with
+    | some B, some qs, some scs =>
+      let (ds, n) := transportRun B qs ⟨none, scs, 0⟩
+      " | ".intercalate (ds.map renderDelivery) ++ " dials=" ++ toString n
+    | _, _, _ => "bad-op"
+  | _ => "bad-op"
+
+/-- `c04cut <G|H> <eof|hold> <hex stream> <k>` (the keepalive lane; same answer format as C03's
+`c03cut`, kept here so that the C04 check does not depend on another property's driver file):
+the peer answers the first request with the first `k` bytes of the stream and then closes
+(`eof`) or keeps the connection open (`hold`); outcome of the first request and the number of
+connections after a second one. -/
+def laneCut : List String → String
+  | [meth, mode, hex, ks] =>
+    match decodeHex hex, ks.toNat? with
+    | some s, some k =>
+      if meth != "G" && meth != "H" then "bad-op"
+      else if mode != "eof" && mode != "hold" then "bad-op"
+      else
+        let isHead := meth == "H"
+        let o := parseFinal isHead 4096 (s.take k)
+        let env : ReuseEnv := ⟨false, isHead, false, mode == "eof", true, true, true⟩
+        let dials := if connReusable o env then "1" else "2"
+        match o with
+        | .reject => "fail dials=" ++ dials
+        | .resp m b =>
+          if b.ok then "ok code=" ++ toString m.sl.code ++ " body=" ++ encodeHex b.data ++ " dials=" ++ dials
+          else "fail dials=" ++ dials
+    | _, _ => "bad-op"
+  | _ => "bad-op"
+
 def lanes : List (String × (List String → String)) := [
   ("c04parse", laneParse),
   ("c04chunk", laneChunk),
-  ("c04mime", laneMime)
+  ("c04mime", laneMime),
+  ("c04conn", laneConn),
+  ("c04parseE", laneParseE),
+  ("c04chunkE", laneChunkE),
+  ("c04cut", laneCut)
 ]
 
 end Req.Driver.L.C04
